@@ -60,11 +60,16 @@ def rw_term(r):
     return "(%d, %d, %d, %s, %s, %s)" % (r["seed"], r["n"], r["idx"], w, opt_h(r["root"]), cbool(r["ver"]))
 
 
+def rwx_term(r):
+    return "(%d, %s, %s, %s)" % (r["idx"], clist(r["ap"], hb), clist(r["rw"], hb), opt_h(r["root"]))
+
+
 KINDS = {
     "app": ("app_case", "check_app", app_term, 12),
     "proof": ("proof_case", "check_proof", proof_term, 60),
     "upd": ("upd_case", "check_upd", upd_term, 30),
     "rw": ("rw_case", "check_rw", rw_term, 120),
+    "rwx": ("rwx_case", "check_rwx", rwx_term, 100),
 }
 
 
@@ -82,6 +87,8 @@ def key_of(r, spec_bad):
         return "c11:rw:%s:%s" % (cls, suffix)
     if k == "proof":
         return "c11:proof:%s:%s" % ("dup" if r.get("dup") else "nodup", suffix)
+    if k == "rwx":
+        return "c11:rwx:%s:%s" % ("hang-or-panic" if r.get("root") is None else "value", suffix)
     return "c11:%s:%s" % (k, suffix)
 
 
@@ -109,7 +116,7 @@ def evaluate(ck, recs):
         rs = [r for r in recs if r["k"] == kind]
         if not rs:
             continue
-        rs = balance(rs, lambda r: r["n"] * (1 + len(r.get("tampers", []))), shard)
+        rs = balance(rs, lambda r: r.get("n", 1) * (1 + len(r.get("tampers", []))), shard)
         # balance shards: cost grows with n
         res = ck.coq_eval(IMPORTS, typ, fn, [term(r) for r in rs], shard=shard, tag=kind, timeout=1700)
         if res is None:
@@ -122,6 +129,8 @@ def evaluate(ck, recs):
                 ck.nontrivial(("proof", r["n"], tuple(r["qs"]), tuple(map(tuple, r["ups"]))))
             elif kind == "upd":
                 ck.nontrivial(("upd", r["n"], tuple(map(tuple, r["ups"]))))
+            elif kind == "rwx":
+                ck.nontrivial(("rwx", r["idx"], len(r["ap"]), len(r["rw"])))
             else:
                 ck.nontrivial(("rw", r["n"], r["idx"]))
             if r.get("panic"):
@@ -183,7 +192,7 @@ def run(ck):
     recs = recs + main
     evaluate(ck, recs)
     for k in ("app", "proof", "upd", "rw"):
-        xs = [x for x in recs if x["k"] == k and x["n"] >= 3]
+        xs = [x for x in recs if x["k"] == k and x.get("n", 0) >= 3]
         if xs:
             s = dict(xs[len(xs) // 2])
             s.pop("sibs", None)
@@ -193,7 +202,7 @@ def run(ck):
                       "tree with n<=6 (8 thorough) incl. the empty query, random subsets in random order with absent and duplicate "
                       "queries and after updates, each with all single-field tamperings (each query hash, root, each sibling hash, "
                       "an index moved to an unqueried leaf); updates: every non-empty position subset for n<=5 and random sets, "
-                      "followed by one Append; right witnesses: every position 0..n+1 for every n<=40 (110 thorough). Distinct = by "
+                      "followed by one Append; right witnesses: every position 0..n+1 for every n<=40 (110 thorough); right-witness reconstruction on arbitrary/inconsistent (index, append path, witness) triples under a 3 s watchdog. Distinct = by "
                       "(kind, n, query/update set or position).")
     ck.cov["exhaustive"] = True
     ck.extra["exhaustive_domain"] = "sizes 0..N for append; all subsets for n<=nsub; all witness positions for n<=rwmax"
